@@ -50,6 +50,7 @@ const ShapesSpec = `{"openapi":"3.1.0","info":{"title":"t","version":"1","x-b":1
      "content":{"application/json":{"schema":{"type":"string"}},"image/*":{"schema":{"type":"string","format":"binary"}},"text/plain":{"schema":{"type":"string"}},"application/*":{"schema":{"type":"string","format":"binary"}}}},
     "4XX":{"description":"c","content":{"application/json":{"schema":{"$ref":"#/components/schemas/Err"}},"*/*":{"schema":{"type":"string","format":"binary"}}}},
     "default":{"description":"d","content":{"application/json":{"schema":{"$ref":"#/components/schemas/Err"}}}}}}},
+ "/sec-order":{"get":{"operationId":"secOrder","security":[{"Zeta":[],"Beta":[],"Mid":[]},{"Mid":[],"Beta":[]}],"responses":{"200":{"description":"schemes of one requirement declared in another order than the alphabetical one"}}}},
  "/same-type":{"post":{"operationId":"sameType",
    "requestBody":{"content":{"application/json; version=1":{"schema":{"$ref":"#/components/schemas/Err"}},"application/json; version=2":{"schema":{"type":"object","properties":{"v2":{"type":"integer"}}}}}},
    "responses":{"200":{"description":"one media type under two keys","content":{"application/json; version=1":{"schema":{"type":"string"}},"application/json; version=2":{"schema":{"type":"integer"}}}},
@@ -64,7 +65,7 @@ const ShapesSpec = `{"openapi":"3.1.0","info":{"title":"t","version":"1","x-b":1
 "webhooks":{"zeta":{"post":{"operationId":"hookZ","requestBody":{"content":{"application/json":{"schema":{"$ref":"#/components/schemas/Pet"}}}},"responses":{"200":{"description":"ok"}}}},
  "alpha":{"post":{"operationId":"hookA","requestBody":{"content":{"application/json":{"schema":{"$ref":"#/components/schemas/Err"}}}},"responses":{"200":{"description":"ok"}}}},
  "mid":{"post":{"operationId":"hookM","requestBody":{"content":{"application/json":{"schema":{"type":"string"}}}},"responses":{"200":{"description":"ok"}}}}},
-"components":{"responses":{"Str":{"description":"s","content":{"application/json":{"schema":{"type":"string"}}}},"Shared":{"description":"s","content":{"application/json":{"schema":{"$ref":"#/components/schemas/Err"}}}}},"securitySchemes":{"O":{"type":"oauth2","flows":{"clientCredentials":{"tokenUrl":"https://x/t","scopes":{"read":"r","write":"w","admin":"a","audit":"u","x1":"1","x2":"2"}},"password":{"tokenUrl":"https://x/p","scopes":{"read":"r","x2":"2"}}}},"K":{"type":"apiKey","in":"header","name":"X-K"}},
+"components":{"responses":{"Str":{"description":"s","content":{"application/json":{"schema":{"type":"string"}}}},"Shared":{"description":"s","content":{"application/json":{"schema":{"$ref":"#/components/schemas/Err"}}}}},"securitySchemes":{"Zeta":{"type":"apiKey","in":"query","name":"z"},"Beta":{"type":"apiKey","in":"header","name":"X-Beta"},"Mid":{"type":"http","scheme":"bearer"},"O":{"type":"oauth2","flows":{"clientCredentials":{"tokenUrl":"https://x/t","scopes":{"read":"r","write":"w","admin":"a","audit":"u","x1":"1","x2":"2"}},"password":{"tokenUrl":"https://x/p","scopes":{"read":"r","x2":"2"}}}},"K":{"type":"apiKey","in":"header","name":"X-K"}},
  "schemas":{
   "Err":{"type":"object","properties":{"m":{"type":"string"}},"x-ogen-name":"Failure","x-zzz":1,"x-aaa":2},
   "Pet":{"oneOf":[{"$ref":"#/components/schemas/Cat"},{"$ref":"#/components/schemas/Dog"},{"$ref":"#/components/schemas/Eel"}],"discriminator":{"propertyName":"kind","mapping":{"zcat":"#/components/schemas/Cat","adog":"#/components/schemas/Dog","meel":"#/components/schemas/Eel","cat2":"#/components/schemas/Cat"}}},
